@@ -255,6 +255,17 @@ class ProgGen:
         if depth <= 0:
             return r.pick(vs) if vs and r.chance(1, 2) else r.pick(['true', 'false'])
         k = r.below(100)
+        if k < 4:
+            # two constant additions whose constants sum past the 32-bit range, then a comparison: the shape on which merging
+            # constants first and comparisons next went wrong (no addition of the unoptimised run overflows for small operands)
+            self.features.add('big-constant-chain')
+            v = self.gen_int(ctx, 0)
+            cmp_ = r.pick(['<', '<=', '>', '>=', '==', '!='])
+            if r.chance(1, 2):      # negative operand, positive constants: (x + MAX) + c2
+                c1, c2 = r.pick([(2147483647, 1), (2147483600, 100), (2147483647, 9)])
+                return '(((((%s %% 7) - 20) + %d) + %d) %s %d)' % (v, c1, c2, cmp_, r.pick([-3, 0, 5, 2147483600]))
+            c1, c2 = r.pick([(2147483647, 2), (2147483000, 1000), (2147483647, 30)])
+            return '(((((%s %% 7) + 40) + (-%d)) + (-%d)) %s %d)' % (v, c1, c2, cmp_, r.pick([-3, 0, 5, -2147483600]))
         if k < 55:
             return '(%s %s %s)' % (self.gen_int(ctx, depth - 1), r.pick(['<', '<=', '>', '>=', '==', '!=']), self.gen_int(ctx, depth - 1))
         if k < 75:
@@ -689,6 +700,65 @@ def gen_builtin_program(rng):
     text = ('class Main {\n  function show(label: Str, b: bool): unit = if b { Process.println(label :: ": T") } else { Process.println(label :: ": F") }\n'
             '  function main(): unit = {\n    let z = "0".toInt();\n' + '\n'.join(L) + '\n  }\n}\n')
     return {'sources': {'Main': text}, 'entry': 'Main', 'features': ['builtins']}
+
+
+INFER_PRELUDE = '''class Opt<T>(Non, Som(T)) {
+  method <R> map(f: (T) -> R): Opt<R> = match this { Non -> Opt.Non(), Som(v) -> Opt.Som(f(v)) }
+  method <R> bind(f: (T) -> Opt<R>): Opt<R> = match this { Non -> Opt.Non(), Som(v) -> f(v) }
+  method orElse(d: T): T = match this { Som(v) -> v, Non -> d }
+}
+class Pr<A, B>(val fst: A, val snd: B) {}
+'''
+
+INFER_HELPERS = '''  function <T> pick(f: (int) -> Opt<T>, d: T): T = f(1).orElse(d)
+  function <A, B> app(f: (A) -> B, a: A): B = f(a)
+  function <A, B, C> comp(f: (A) -> B, g: (B) -> C, a: A): C = g(f(a))
+  function <T> twice(f: (T) -> T, x: T): T = f(f(x))
+  function <A, B> mk(a: A, f: (A) -> B): Pr<A, B> = Pr.init(a, f(a))
+  function <T> first(o: Opt<T>, p: Opt<T>): Opt<T> = match o { Som(_) -> o, Non -> p }
+'''
+
+# bodies of type int whose acceptance depends on how much the checker infers from hints: lambdas whose body needs the
+# expected type (a generic constructor without type arguments, a nested un-annotated lambda), type arguments solved from a
+# lambda argument, from another argument, or from the return-type hint
+INFER_TEMPLATES = [
+    'Main.pick((@x) -> Opt.Non(), @k)',
+    'Main.pick((@x) -> Opt.Som(@x + @k), 0)',
+    'Main.pick((@x) -> Main.first(Opt.Non(), Opt.Som(@x)), @k)',
+    'Main.app((@x) -> (@y: int) -> @x + @y, @k)(@j)',
+    'Main.comp((@x) -> Opt.Som(@x), (@y) -> @y.orElse(@j), @k)',
+    'Main.comp((@x) -> @x + 1, (@y) -> Opt.Som(@y), @k).orElse(0)',
+    'Opt.Som(@k).bind<int>((@x) -> Opt.Non()).orElse(@j)',
+    'Opt.Som(@k).bind((@x) -> Opt.Som(@x * 2)).map((@y) -> @y + @j).orElse(0)',
+    'Main.app((@x) -> Main.pick((@y) -> Opt.Non(), @x), @k)',
+    'Main.twice((@x) -> @x + @j, @k)',
+    'Main.twice((@x) -> @x.map((@y) -> @y + 1), Opt.Som(@k)).orElse(@j)',
+    'Main.mk(@k, (@x) -> Opt.Som(@x)).snd.orElse(@j)',
+    'Main.mk(@k, (@x) -> (@y: int) -> @x + @y).snd(@j)',
+    'Main.first(Opt.Non(), Opt.Som(@k)).orElse(@j)',
+    '{ let @x = Opt.Som(@k); let @y = @x.map((@z) -> @z + @j); @y.orElse(0) }',
+    '{ let @x: Opt<int> = Opt.Non(); @x.orElse(@k) }',
+    '{ let @x = (@y: int) -> Opt.Som(@y); @x(@k).orElse(@j) }',
+    'if @k > @j { Main.pick((@x) -> Opt.Non(), 1) } else { Main.pick((@x) -> Opt.Som(@x), 2) }',
+    'match Opt.Som(@k) { Som(@x) -> Main.app((@y) -> @y + @x, @j), Non -> 0 }',
+]
+
+
+def gen_infer_program(rng, nfun=8):
+    """Programs whose type checking leans on inference: generic calls with lambda arguments, generic constructors without
+    type arguments, nested lambdas. All templates are accepted as written; rewrites that make an inferred type explicit
+    (parameter annotations, explicit type arguments) or wrap an argument in a block / parentheses must keep them accepted."""
+    names = ['x', 'y', 'z', 'u', 'v', 'w', 'p', 'q', 'r', 's']
+    funs, prints = [], []
+    tpls = rng.shuffle(list(range(len(INFER_TEMPLATES))))[:nfun]
+    for i, ti in enumerate(tpls):
+        x, y, z = rng.shuffle(names)[:3]
+        body = (INFER_TEMPLATES[ti].replace('@x', x).replace('@y', y).replace('@z', z)
+                .replace('@k', str(rng.range(0, 9))).replace('@j', str(rng.range(0, 9))))
+        funs.append('  function t%d(): int = %s' % (i, body))
+        prints.append('    Process.println(Str.fromInt(Main.t%d()));' % i)
+    text = INFER_PRELUDE + 'class Main {\n' + INFER_HELPERS + '\n'.join(funs) + '\n  function main(): unit = {\n' + '\n'.join(prints) + '\n  }\n}\n'
+    return {'sources': {'Main': text}, 'entry': 'Main', 'features': ['inference']}
 
 
 def gen_layout_program(rng, nty=4, single_field=True):
